@@ -11,6 +11,7 @@ headers erased), `line_redacted`, `line_kept`.
 -/
 import MtxVerif.Model.C07
 import MtxVerif.Lemmas.C11Heap
+import MtxVerif.Gen.C07
 
 namespace MtxVerif.C07
 
@@ -181,54 +182,62 @@ theorem redact_pure (ci : Bool) (v : V) (n : Nat) (hb : Below n v)
 
 /-! ### B. request dumps -/
 
-theorem line_redacted (rs : List Bytes) (k v : Bytes) (h : rs.contains k = true) :
-    headerLine rs k v = k ++ colonSp ++ placeholder ++ crlf := by
-  unfold headerLine; rw [if_pos h]
+theorem line_redacted (p : Bytes → Bool) (k v : Bytes) (h : p k = true) :
+    headerLineBy p k v = k ++ colonSp ++ placeholder ++ crlf := by
+  unfold headerLineBy; rw [if_pos h]
 
-theorem line_kept (rs : List Bytes) (k v : Bytes) (h : rs.contains k = false) :
-    headerLine rs k v = k ++ colonSp ++ v ++ crlf := by
-  unfold headerLine; simp only [h, Bool.false_eq_true, if_false]
+theorem line_kept (p : Bytes → Bool) (k v : Bytes) (h : p k = false) :
+    headerLineBy p k v = k ++ colonSp ++ v ++ crlf := by
+  unfold headerLineBy; simp only [h, Bool.false_eq_true, if_false]
 
-theorem lines_erased (rs : List Bytes) (k : Bytes) (h : rs.contains k = true) (vs : List Bytes) :
-    (vs.map fun _ => ([] : Bytes)).flatMap (fun v => headerLine rs k v) = vs.flatMap (fun v => headerLine rs k v) := by
+theorem lines_erased (p : Bytes → Bool) (k : Bytes) (h : p k = true) (vs : List Bytes) :
+    (vs.map fun _ => ([] : Bytes)).flatMap (fun v => headerLineBy p k v) = vs.flatMap (fun v => headerLineBy p k v) := by
   induction vs with
   | nil => rfl
   | cons v vs ih =>
-    rw [List.map_cons, List.flatMap_cons, List.flatMap_cons, ih, line_redacted rs k [] h, line_redacted rs k v h]
+    rw [List.map_cons, List.flatMap_cons, List.flatMap_cons, ih, line_redacted p k [] h, line_redacted p k v h]
 
-theorem dumpHeaders_erase (rs : List Bytes) (hs : List Header) :
-    dumpHeaders rs (eraseSecrets rs hs) = dumpHeaders rs hs := by
+theorem dumpHeaders_erase (p : Bytes → Bool) (hs : List Header) :
+    dumpHeadersBy p (eraseBy p hs) = dumpHeadersBy p hs := by
   induction hs with
   | nil => rfl
   | cons h hs ih =>
-    unfold dumpHeaders eraseSecrets at *
+    unfold dumpHeadersBy eraseBy at *
     simp only [List.map_cons, List.flatMap_cons, ih]
     congr 1
-    by_cases hc : rs.contains h.1 = true
+    by_cases hc : p h.1 = true
     · rw [if_pos hc]
-      exact lines_erased rs h.1 hc h.2
+      exact lines_erased p h.1 hc h.2
     · rw [if_neg hc]
 
-/-- **Non-interference**: two requests that differ only in the values of redact-listed headers
-(`Authorization`, `Cookie`, …) produce byte-identical dumps. -/
-theorem dump_noninterference (rs : List Bytes) (reqLine hostLine body : Bytes) (hs hs' : List Header)
-    (h : eraseSecrets rs hs = eraseSecrets rs hs') :
-    dump rs reqLine hostLine hs body = dump rs reqLine hostLine hs' body := by
-  unfold dump
-  rw [← dumpHeaders_erase rs hs, ← dumpHeaders_erase rs hs', h]
+/-- **Non-interference** of the header loop, for whatever lookup `p` it uses: two requests that differ only
+in the values of the headers the lookup hits produce byte-identical dumps (every value of a repeated header,
+empty or not, first or not). -/
+theorem dump_noninterference (canon : Bool) (rs : List Bytes) (reqLine hostLine body : Bytes) (hs hs' : List Header)
+    (h : eraseBy (hit canon rs) hs = eraseBy (hit canon rs) hs') :
+    dump canon rs reqLine hostLine hs body = dump canon rs reqLine hostLine hs' body := by
+  unfold dump dumpHeaders
+  rw [← dumpHeaders_erase (hit canon rs) hs, ← dumpHeaders_erase (hit canon rs) hs', h]
 
 /-! #### header names are case-insensitive: the full statement, and where it fails -/
 
 /-- **Full statement** for the dump: two requests that differ only in the values of credential headers —
 whatever the spelling of their names — produce the same dump. -/
-def dump_ci_full (rs : List Bytes) : Prop :=
+def dump_ci_full (canon : Bool) (rs : List Bytes) : Prop :=
   ∀ (reqLine hostLine body : Bytes) (hs hs' : List Header),
     eraseSecretsCI rs hs = eraseSecretsCI rs hs' →
-    dump rs reqLine hostLine hs body = dump rs reqLine hostLine hs' body
+    dump canon rs reqLine hostLine hs body = dump canon rs reqLine hostLine hs' body
+
+/-- with a canonicalising lookup the full statement holds, for every redact list -/
+theorem dump_ci_fixed (rs : List Bytes) : dump_ci_full true rs := by
+  intro rl hl body hs hs' h
+  apply dump_noninterference
+  have : hit true rs = listedCI rs := by funext k; simp [hit]
+  rw [this]; exact h
 
 theorem eraseCI_eq_erase (rs : List Bytes) (hs : List Header) (hc : keysCanonical rs hs = true) :
-    eraseSecretsCI rs hs = eraseSecrets rs hs := by
-  unfold eraseSecretsCI eraseSecrets
+    eraseSecretsCI rs hs = eraseBy (hit false rs) hs := by
+  unfold eraseSecretsCI eraseBy
   apply List.map_congr_left
   intro h hh
   have := (List.all_eq_true.mp hc) h hh
@@ -236,31 +245,32 @@ theorem eraseCI_eq_erase (rs : List Bytes) (hs : List Header) (hc : keysCanonica
     intro r hr e
     unfold listedCI
     exact List.any_eq_true.mpr ⟨r, hr, by simp [e]⟩
+  have hhit : hit false rs h.1 = rs.contains h.1 := by simp [hit]
   by_cases h1 : rs.contains h.1 = true
   · have h2 : listedCI rs h.1 = true := by
       have hm : h.1 ∈ rs := by simpa using h1
       exact hl h.1 hm rfl
-    show (if listedCI rs h.1 = true then _ else _) = (if rs.contains h.1 = true then _ else _)
-    rw [if_pos h2, if_pos h1]
+    show (if listedCI rs h.1 = true then _ else _) = (if hit false rs h.1 = true then _ else _)
+    rw [hhit, if_pos h2, if_pos h1]
   · have h2 : ¬ listedCI rs h.1 = true := by
       intro hx
       rw [hx] at this
       exact h1 (by simpa using this)
-    show (if listedCI rs h.1 = true then _ else _) = (if rs.contains h.1 = true then _ else _)
-    rw [if_neg h2, if_neg h1]
+    show (if listedCI rs h.1 = true then _ else _) = (if hit false rs h.1 = true then _ else _)
+    rw [hhit, if_neg h2, if_neg h1]
 
 /-- **Under the decidable side condition** that credential headers are spelled as in the list (true for
-every header map built by net/http, which canonicalises), the full statement holds. -/
+every header map built by net/http, which canonicalises), the full statement holds for the exact lookup. -/
 theorem dump_ci_partial (rs : List Bytes) (reqLine hostLine body : Bytes) (hs hs' : List Header)
     (hc : keysCanonical rs hs = true) (hc' : keysCanonical rs hs' = true)
     (h : eraseSecretsCI rs hs = eraseSecretsCI rs hs') :
-    dump rs reqLine hostLine hs body = dump rs reqLine hostLine hs' body := by
+    dump false rs reqLine hostLine hs body = dump false rs reqLine hostLine hs' body := by
   apply dump_noninterference
   rw [← eraseCI_eq_erase rs hs hc, ← eraseCI_eq_erase rs hs' hc', h]
 
-/-- Outside it the full statement is false for `dumpRequest`'s exact-match lookup: a header map with the
-key `cookie` (lower case, as a handler building a Request by hand could write it) is dumped in clear. -/
-theorem dump_ci_witness : ¬ dump_ci_full [asc ['C', 'o', 'o', 'k', 'i', 'e']] := by
+/-- Outside it the full statement is false for the exact lookup: a header map with the key `cookie` (lower
+case, as code building a Request by hand could write it) is dumped in clear. -/
+theorem dump_ci_witness : ¬ dump_ci_full false [asc ['C', 'o', 'o', 'k', 'i', 'e']] := by
   intro h
   have := h [] [] [] [(asc ['c', 'o', 'o', 'k', 'i', 'e'], [asc ['a']])] [(asc ['c', 'o', 'o', 'k', 'i', 'e'], [asc ['b']])]
     (by decide)
@@ -274,6 +284,10 @@ theorem leaked_ideal (rs : List Bytes) (reqLine hostLine : Bytes) (hs : List Hea
   unfold leaked
   simp only [Prod.mk.injEq, List.flatMap_eq_nil_iff, List.filter_eq_nil_iff]
   constructor <;> intro h _ v _ <;> cases isInfixB v (reqLine ++ hostLine ++ idealHeaders rs hs ++ crlf ++ body) <;> simp
+
+/-- tie to the source (regenerated on every check): the redaction test sits inside the loop over ALL values
+of a key and assigns the placeholder to the loop variable that is printed -/
+theorem gen_loop_shape : Gen.C07.redactsEveryValue = true := by decide
 
 /-! ### non-vacuity / samples (tests, not theorems) -/
 
@@ -290,7 +304,7 @@ example : safeConf ⟨[asc ['s', '3']], ⟨none, none⟩, []⟩ = false := by de
     && passLike "webrtcICEServers2[].password"
 #guard uncovered [("g", "authInternalUsers[].pass", "conf.Credential"), ("p", "readPass", "conf.Credential"),
     ("p", "newPass", "conf.Credential")] = [("p", "newPass")]
-example : dumpHeaders [asc ['C']] [(asc ['A'], [asc ['x']]), (asc ['C'], [asc ['s'], asc ['t']])]
+example : dumpHeaders false [asc ['C']] [(asc ['A'], [asc ['x']]), (asc ['C'], [asc ['s'], asc ['t']])]
     = asc ['A', ':', ' ', 'x', '\r', '\n', 'C', ':', ' '] ++ placeholder ++ asc ['\r', '\n', 'C', ':', ' ']
       ++ placeholder ++ asc ['\r', '\n'] := by decide
 open MtxVerif.C11 in
